@@ -398,12 +398,12 @@ Proof. unfold owned_fl. apply bind_app. Qed.
 Global Instance owned_fl_proper : Proper ((≡ₚ) ==> (≡ₚ)) owned_fl.
 Proof. intros FL FL' H. unfold owned_fl. by rewrite H. Qed.
 
-Lemma elem_of_owned_fl FL b : b ∈ owned_fl FL <-> exists n, n ∈ FL /\ b ∈ owned_fn n.
+Lemma elem_of_owned_fl FL (b : positive) : b ∈ owned_fl FL <-> exists e : fnode, e ∈ FL /\ b ∈ owned_fn e.
 Proof. unfold owned_fl. rewrite elem_of_list_bind. naive_solver. Qed.
 Lemma ids_subseteq_owned F x : x ∈ ids F -> x ∈ owned F.
 Proof.
-  rewrite ids_flat. intros H. apply elem_of_list_fmap in H as (n & -> & Hn).
-  apply elem_of_owned_fl. exists n. split; [done|]. by left.
+  rewrite ids_flat. intros H. apply elem_of_list_fmap in H as (e & -> & He).
+  apply elem_of_owned_fl. exists e. split; [done|]. by left.
 Qed.
 
 Lemma WF_ids_live h F x : WF h F -> x ∈ ids F -> x ∈ h_live h.
